@@ -43,6 +43,7 @@ CONSTANTS ShapeSet,     \* the family of plan shapes explored (Init picks one)
           Tolerated,    \* clauses allowed to be false (known findings), normally {}
           FnOut,        \* TRUE: a plugin's outcome is a function of the action alone (also across restarts)
           Poller,       \* TRUE: a reader polls the stored plan at any time (Status / Plan), emitting R events
+          Overruns,     \* TRUE: a plugin invocation may outlive the action's timeout (recorded as a timeout failure)
           Aging,        \* TRUE: a crash may last longer than the maximum age of a resumable plan (recover.agedOut)
           Gen           \* "off" | "full": hist is the history of observable events (scenario generation)
                         \* | "last": hist = <<last event, parity>> (trace conformance, EngineConf.tla)
@@ -63,9 +64,10 @@ VARIABLES sh,                 \* the shape (never changes)
           fate,               \* [action -> the outcome it had so far | "?"]   (only constrains anything when FnOut)
           wq,                 \* End: objects still to be written by writeEverything
           aged,               \* the plan found Running by the new process is older than the maximum age
+          late,               \* invocations that outlived their attempt and have not returned yet: {<<action, call number>>}
           obs, bad, hist
 
-evars == <<sh, mem, dur, mreason, dreason, pc, cb, wk, lim, fails, li, am, rn, cl, ch, runs, waiter, alive, crashes, ncall, fate, wq, aged>>
+evars == <<sh, mem, dur, mreason, dreason, pc, cb, wk, lim, fails, li, am, rn, cl, ch, runs, waiter, alive, crashes, ncall, fate, wq, aged, late>>
 vars == <<evars, obs, bad, hist>>
 
 (* ------------------------------------------------------------------ *)
@@ -162,14 +164,14 @@ Init ==
   /\ waiter = "none" /\ alive = TRUE /\ crashes = 0
   /\ ncall = [o \in {d.obj : d \in {x \in DescsOf(sh) : x.k \in {"act", "cact"}}} |-> 0]
   /\ fate = [o \in {d.obj : d \in {x \in DescsOf(sh) : x.k \in {"act", "cact"}}} |-> "?"]
-  /\ wq = <<>> /\ aged = FALSE
+  /\ wq = <<>> /\ aged = FALSE /\ late = {}
   /\ obs = InitObs(ConfigOf(sh)) /\ bad = {} /\ hist = IF Gen = "last" THEN <<[ev |-> "none"], 0>> ELSE <<>>
 
 (* ------------------------------------------------------------------ *)
 (* the action state machine (internal/execute/sm/actions)             *)
 (*   idle -> start -> exec -> incall -> watt -> (exec | end) -> done   *)
 (* ------------------------------------------------------------------ *)
-UNCH_MAIN == UNCHANGED <<sh, aged, mreason, dreason, pc, cb, wk, lim, fails, li, rn, cl, ch, runs, waiter, alive, crashes, wq>>
+UNCH_MAIN == UNCHANGED <<sh, aged, late, mreason, dreason, pc, cb, wk, lim, fails, li, rn, cl, ch, runs, waiter, alive, crashes, wq>>
 
 \* Start: NotStarted -> Running, written.  A Running action (check actions, recovered) is not written again.
 AStart(a) ==
@@ -188,9 +190,26 @@ AExec(a) ==
   /\ am[a] = "exec"
   /\ IF Len(mem[a].atts) > RetriesOf(a)
        THEN am' = [am EXCEPT ![a] = "end"] /\ UNCHANGED ncall /\ Silent
-       ELSE /\ am' = [am EXCEPT ![a] = "incall"] /\ ncall' = [ncall EXCEPT ![a] = @ + 1]
-            /\ Emit(EvPS(a, ncall[a] + 1))
+       ELSE \E ov \in (IF Overruns THEN BOOLEAN ELSE {FALSE}) :      \* ov: this invocation will not return within the timeout
+            /\ am' = [am EXCEPT ![a] = IF ov THEN "incall_ov" ELSE "incall"] /\ ncall' = [ncall EXCEPT ![a] = @ + 1]
+            /\ Emit([EvPS(a, ncall[a] + 1) EXCEPT !.ov = ov])
   /\ UNCHANGED <<mem, dur, fate>> /\ UNCH_MAIN
+\* the action's timeout fires (actions.run: select between the plugin's answer and the attempt's context): the attempt is a
+\* retryable timeout failure; the context of the invocation is cancelled, the invocation itself goes on for a while
+ATimeout(a) ==
+  /\ am[a] = "incall_ov"
+  /\ mem' = [mem EXCEPT ![a].atts = Append(@, "x")]
+  /\ am' = [am EXCEPT ![a] = "watt"]
+  /\ late' = late \cup {<<a, ncall[a]>>}
+  /\ Silent
+  /\ UNCHANGED <<sh, aged, dur, ncall, fate, mreason, dreason, pc, cb, wk, lim, fails, li, rn, cl, ch, runs, waiter, alive, crashes, wq>>
+\* ... and returns later, whatever it returns: nobody is listening any more
+ALate(a, n) ==
+  /\ alive /\ <<a, n>> \in late
+  /\ late' = late \ {<<a, n>>}
+  /\ Emit([EvPE(a, n, "overrun") EXCEPT !.ctxdone = TRUE])
+  /\ UNCHANGED <<sh, aged, mem, dur, ncall, fate, am, mreason, dreason, pc, cb, wk, lim, fails, li, rn, cl, ch, runs, waiter, alive, crashes, wq>>
+LateReturn == \E x \in late : ALate(x[1], x[2])
 \* the plugin returns: the attempt is appended (memory)
 APEnd(a, out) ==
   /\ am[a] = "incall"
@@ -215,14 +234,14 @@ AEnd(a) ==
   /\ am' = [am EXCEPT ![a] = "done"]
   /\ UNCHANGED <<ncall, fate>> /\ UNCH_MAIN
 ActionStep(a) ==
-  \/ AStart(a) \/ AExec(a) \/ AWAtt(a) \/ AEnd(a)
+  \/ AStart(a) \/ AExec(a) \/ ATimeout(a) \/ AWAtt(a) \/ AEnd(a)
   \/ \E out \in (IF KindOf(a) = "act" THEN SeqOutcomes ELSE ChkOutcomes) : APEnd(a, out)
 
 (* ------------------------------------------------------------------ *)
 (* one run of a check group (runChecksOnce + runActionsParallel)      *)
 (*   idle -> mark(k) -> acts -> done(res)      started by its caller   *)
 (* ------------------------------------------------------------------ *)
-UNCH_RUN == UNCHANGED <<sh, aged, mreason, dreason, pc, cb, wk, lim, fails, li, cl, ch, runs, waiter, alive, crashes, wq, ncall, fate>>
+UNCH_RUN == UNCHANGED <<sh, aged, late, mreason, dreason, pc, cb, wk, lim, fails, li, cl, ch, runs, waiter, alive, crashes, wq, ncall, fate>>
 GroupScope(g) == obs.dd[g].b
 GroupKind(g) == obs.dd[g].g
 GActsOf(g) == GActs(GroupScope(g), GroupKind(g))
@@ -266,7 +285,7 @@ ClearRun(r, g) == [r EXCEPT ![g] = [st |-> "idle", k |-> 0]]
 (* continuous-check loops (runContChecks) and their channels          *)
 (*   off -> wait -> run -> (wait | exit) ; exit closes the channel     *)
 (* ------------------------------------------------------------------ *)
-UNCH_CL == UNCHANGED <<sh, aged, mem, dur, mreason, dreason, pc, cb, wk, lim, fails, li, am, waiter, alive, crashes, wq, ncall, fate>>
+UNCH_CL == UNCHANGED <<sh, aged, late, mem, dur, mreason, dreason, pc, cb, wk, lim, fails, li, am, waiter, alive, crashes, wq, ncall, fate>>
 CName(sc) == Grp(sc, "cont")
 \* select: the ticker fires => one more run (both branches are enabled when cancelled: Go picks either)
 CTick(sc) ==
@@ -296,7 +315,7 @@ ChanDrained(sc) == ch[sc].closed /\ ~ch[sc].err
 (* sequence workers (the goroutine in ExecuteSequences + execSeq)     *)
 (*   w0 -> act(k) -> wait(k) -> ... -> rel(res) -> gone                *)
 (* ------------------------------------------------------------------ *)
-UNCH_WK == UNCHANGED <<sh, aged, mreason, dreason, pc, cb, li, rn, cl, ch, runs, waiter, alive, crashes, wq, ncall, fate>>
+UNCH_WK == UNCHANGED <<sh, aged, late, mreason, dreason, pc, cb, li, rn, cl, ch, runs, waiter, alive, crashes, wq, ncall, fate>>
 Exceeded(b) == Tol(b) >= 0 /\ fails > Tol(b)
 SeqD(q) == obs.dd[q]
 \* defense in depth: threshold already exceeded => nothing runs; else sequence := Running, written
@@ -345,7 +364,7 @@ WorkersQuiet == \A q \in DOMAIN wk : wk[q].st \in {"none", "gone"}
 (* ------------------------------------------------------------------ *)
 (* the plan goroutine                                                 *)
 (* ------------------------------------------------------------------ *)
-UNCH_M == UNCHANGED <<sh, aged, alive, crashes, ncall, fate>>
+UNCH_M == UNCHANGED <<sh, aged, late, alive, crashes, ncall, fate>>
 Goto(l) == pc' = l
 BlkName == ScopeName(cb)
 \* deferred UpdatePlan / UpdateBlock at the end of a state function: only when it changes the stored record
@@ -638,6 +657,7 @@ Crash ==
   /\ runs' = [sc \in DOMAIN runs |-> 0] /\ ncall' = [a \in DOMAIN ncall |-> 0] /\ wq' = <<>>
   /\ mem' = dur /\ mreason' = dreason           \* what the next process will read
   \* the process may stay down for longer than the configured maximum (WithMaxLastUpdate): the plan has aged out
+  /\ late' = {}
   /\ aged' \in (IF Aging /\ dur["p"].st = RU THEN BOOLEAN ELSE {FALSE})
   /\ Emit([ev |-> "Crash", snap |-> SnapSeq(dur), reason |-> dreason, base |-> "-", old |-> aged', recovery |-> TRUE])
   /\ UNCHANGED <<sh, dur, dreason, cb, fate>>
@@ -677,7 +697,7 @@ NewProcess ==
   /\ IF dur["p"].st = RU THEN waiter' = "open" /\ pc' = (IF aged THEN "aged_close" ELSE "fix") ELSE waiter' = "none" /\ pc' = "finished"
   /\ IF dur["p"].st = RU THEN Emit([ev |-> "NewProc", running |-> TRUE])
      ELSE Emit([ev |-> "WaitRet", ok |-> TRUE, snap |-> SnapSeq(dur), reason |-> dreason, infl |-> 0])
-  /\ UNCHANGED <<sh, aged, mem, dur, mreason, dreason, cb, wk, lim, fails, li, am, rn, cl, ch, runs, crashes, ncall, fate, wq>>
+  /\ UNCHANGED <<sh, aged, late, mem, dur, mreason, dreason, cb, wk, lim, fails, li, am, rn, cl, ch, runs, crashes, ncall, fate, wq>>
 \* fixPlan up to the blocks: plan-level verdicts, then fixBlock on every block (in-memory), then the sequences
 \* that are still Running are executed by fixBlock itself (all at once, no limiter, no threshold check)
 PlanVerdictEarly(m) ==
@@ -784,10 +804,10 @@ Internal == MainStep \/ MFix \/ MFixWait \/ MFixFailBlocks \/ MFixDef \/ MFixDef
             \/ (\E q \in DOMAIN wk : WorkerStep(q))
             \/ (\E g \in DOMAIN rn : RunStep(g))
             \/ (\E sc \in DOMAIN cl : ContStep(sc))
-            \/ (\E a \in DOMAIN am : AStart(a) \/ AExec(a) \/ AWAtt(a) \/ AEnd(a))
+            \/ (\E a \in DOMAIN am : AStart(a) \/ AExec(a) \/ ATimeout(a) \/ AWAtt(a) \/ AEnd(a))
 PluginReturn == \E a \in DOMAIN am : \E out \in (IF KindOf(a) = "act" THEN SeqOutcomes ELSE ChkOutcomes) : APEnd(a, out)
 Done == pc = "finished" /\ UNCHANGED vars
-Next == (alive /\ (Internal \/ PluginReturn)) \/ (~alive /\ NewProcess) \/ Crash \/ Done
+Next == (alive /\ (Internal \/ PluginReturn)) \/ (~alive /\ NewProcess) \/ Crash \/ Done \/ LateReturn
         \/ (\E o \in DOMAIN dur : Poll(o) \/ PollAgain(o))
 Spec == Init /\ [][Next]_vars
 FairSpec == Spec /\ WF_vars(Internal \/ PluginReturn \/ NewProcess)
